@@ -27,8 +27,8 @@ TRUSTED_BASE = [
     "recorded real op sequence with the model's, for the first and every resumed run, (b) equality of the directory "
     "content class (absent/empty/partial/complete:i per file, minisanity tokens) after every kill, (c) resumed-from "
     "iteration = number of OptimizeVI.update calls of the resumed process, (d) read-set of the resumed run",
-    "Lawful: update increments nit; pickle.load(pickle.dump(x)) == x bitwise for (samples, state) — observed by the "
-    "oracle (bitwise equal final pickle), not proved",
+    "Lawful: update increments nit; pickle.load(pickle.dump(x)) == x for (samples, state) — observed by the oracle (final "
+    "(samples, state) equal by value: tree structure, dtype, shape and bytes of every leaf), not proved",
     "fault injector harness/props/_crash_fsfault.py: kill = os._exit inside the real process; write() calls are flushed "
     "at once, so a file holds all completed writes plus a prefix of the interrupted one",
 ]
@@ -94,9 +94,38 @@ def _setup(cfg, jcache=None):
             callback=callback)
         blob = pickle.dumps((s, st._replace(config={})))
         leaves = [np.asarray(x).tobytes() for x in jax.tree_util.tree_leaves((s.pos, s._samples, st.key))]
-        return dict(sha=hashlib.sha1(blob).hexdigest(), leaves=hashlib.sha1(b"|".join(leaves)).hexdigest(),
-                    nit=int(st.nit), updates=n_upd[0])
+        last = os.path.join(odir, "last.pkl")
+        return dict(sha=_value_digest((s, st._replace(config={}))), pkl=hashlib.sha1(blob).hexdigest(),
+                    leaves=hashlib.sha1(b"|".join(leaves)).hexdigest(), nit=int(st.nit), updates=n_upd[0],
+                    last_digest=_file_digest(last) if os.path.exists(last) else None)
     return drive
+
+
+def _value_digest(obj):
+    """value identity of a (samples, state) pytree: structure + dtype/shape/bytes of every leaf.  (The pickle BYTES of
+    equal values may differ — memoisation of shared objects differs between a state that was computed and one that was
+    unpickled and continued — so bytes are only compared between runs with the same history.)"""
+    import jax
+    import numpy as np
+    leaves, treedef = jax.tree_util.tree_flatten(obj)
+    h = hashlib.sha1(str(treedef).encode())
+    for x in leaves:
+        if isinstance(x, (str, bytes, type(None))):
+            h.update(repr(x).encode())
+        else:
+            a = np.asarray(x)
+            h.update(f"{a.dtype.str}{a.shape}".encode())
+            h.update(np.ascontiguousarray(a).tobytes())
+    return h.hexdigest()
+
+
+def _file_digest(path):
+    """value digest of a pickle file; None if it does not load"""
+    try:
+        with open(path, "rb") as f:
+            return _value_digest(pickle.load(f))
+    except Exception:  # noqa: BLE001
+        return None
 
 
 def worker(args):
@@ -116,9 +145,18 @@ def _status(path, pickles):
     for i, p in pickles.items():
         if b == p:
             return f"complete:{i}"
-    if any(p.startswith(b) for p in pickles.values()):
-        return "partial"
+    d = _file_digest(path)
+    if d is None:
+        return "partial"          # non-empty and does not unpickle
+    for i, p in pickles.items():
+        if i not in _REFDIG:
+            _REFDIG[i] = _value_digest(pickle.loads(p))
+        if _REFDIG[i] == d:
+            return f"complete:{i}"
     return "garbage"
+
+
+_REFDIG = {}
 
 
 def _tokens(path, msgs):
@@ -353,11 +391,11 @@ def _judge(cfg, sc, refres, final_sha=None):
                     dict(driver="re.optimize_kl", phase="resume", error=e, site=(st["exc"] or {}).get("site", "")))
     if fin["res"] is None or fin["res"]["sha"] != refres["sha"] or fin["res"]["nit"] != refres["nit"]:
         return (f"resume=True after kill [{where}] finished with different (samples, state) than the uninterrupted run "
-                f"(nit {(fin['res'] or {}).get('nit')} vs {refres['nit']}; array leaves equal: "
+                f"(nit {(fin['res'] or {}).get('nit')} vs {refres['nit']}; compared by value; array leaves equal: "
                 f"{(fin['res'] or {}).get('leaves') == refres['leaves']})",
                 dict(driver="re.optimize_kl", phase="result", error="different-result"))
-    if final_sha is not None and fin["snap"].get("last.pkl") != final_sha:
-        return (f"after the resumed run [{where}] last.pkl is not the pickle of the final state",
+    if final_sha is not None and fin["res"].get("last_digest") != fin["res"]["sha"]:
+        return (f"after the resumed run [{where}] last.pkl does not hold the returned (samples, state)",
                 dict(driver="re.optimize_kl", phase="files", error="last.pkl"))
     return None
 
@@ -449,9 +487,9 @@ def _run_cfg(ctx, cfg):
         nf = mo[p]["fine"]
         ks = [[k] for k in range(nf + 1)]
         rng = __import__("random").Random(ctx.rng.randrange(10 ** 9))
-        for _ in range(ctx.n(6, 60)):
+        for _ in range(ctx.n(6, 24)):
             ks.append([rng.randrange(1, nf), rng.randrange(0, 16)])
-        for _ in range(ctx.n(1, 12)):
+        for _ in range(ctx.n(1, 6)):
             ks.append([rng.randrange(1, nf), rng.randrange(0, 16), rng.randrange(0, 16)])
         scen[p] = ks
     sims = {p: ctx.model(DRIVER, [dict(op="sim", proto=p, n=n, r0=r0, kills=ks) for ks in scen[p]]) for p in protos}
@@ -489,8 +527,8 @@ def _run_cfg(ctx, cfg):
     if any(o["ref"]["res"] != ref["res"] for o in outs):
         ctx.disagree(case0, [o["ref"]["res"] for o in outs], ref["res"], "the uninterrupted run is not deterministic")
         return
-    final_sha = ref["res"]["sha"]   # last.pkl must be the pickle of the returned (samples, state)
-    if ref["pickle_sha"][str(n)] != final_sha:
+    final_sha = ref["res"]["sha"]   # last.pkl must hold the returned (samples, state) (compared by value)
+    if ref["res"].get("last_digest") != final_sha:
         ctx.counterexample(dict(cfg=cfg, kills=[]), "after an uninterrupted run last.pkl is not the pickle of the returned "
                            "(samples, state)", dict(driver="re.optimize_kl", phase="files", error="last.pkl"))
     if proto is None:
@@ -548,7 +586,7 @@ def _run_cfg(ctx, cfg):
     cand = [sid for sid, ks in enumerate(scen[proto]) if str(sid) in allsc and sid not in pick]
     ctx.rng.shuffle(cand)
     mid = [sid for sid in cand if any(k.get("when") == "partial" for k in allsc[str(sid)]["kills"])]
-    pick += mid[:ctx.n(1, 8)] + [sid for sid in cand if sid not in mid][:ctx.n(1, 10)]
+    pick += mid[:ctx.n(1, 3)] + [sid for sid in cand if sid not in mid][:ctx.n(1, 3)]
     try:
         reals = _pool().map(lambda sid: (sid, _scenario_real(f"{cfg['seed']}_{sid}", cfg, allsc[str(sid)]["kills"])), pick)
     except Infra as e:
